@@ -1,6 +1,7 @@
 """Validation of the machinery itself.
 
   ./check selftest determinism [--seeds N]      every engine twice per seed, different worker counts
+  ./check selftest heap                        the shadow heap's own detectors, exercised by deliberate misuse
   ./check selftest mutant <dir> [--props C01,C02|all]
         <dir> holds patch.diff (+ optional demo.rs): apply to a scratch worktree of /repo (outside
         /repo and /verif), run the baseline tests and the demo, run the listed checks against it,
@@ -137,5 +138,8 @@ def main(c, args):
         return mutant(c, args[1:])
     if args[0] == 'determinism':
         return determinism(c, args[1:])
+    if args[0] == 'heap':
+        c.gen_shadow()
+        return subprocess.run([c.build_hist(), 'selfcheck']).returncode
     print(__doc__)
     return 2
